@@ -8,8 +8,8 @@ PROPS['C04']={
                 'std/dependency calls replaced by the listed models (coverage.trusted_base); models validated on every run by native replay of sampled paths',
                 'HashMap keyed by KeyId: key equality structural where PartialEq/Hash are derived; a hand-written PartialEq / Ord of a key type is executed from MIR by the map models'],
  'obligations':[
-   {'name':'verify_vec','module':'harness.C04','cls':'VerifyThreshold','quick':{'nk':2,'ns':3,'iter_kind':'vec'},'thorough':{'nk':3,'ns':4,'iter_kind':'vec'}},
-   {'name':'verify_mapvalues','module':'harness.C04','cls':'VerifyThreshold','quick':{'nk':2,'ns':2,'iter_kind':'values'},'thorough':{'nk':3,'ns':3,'iter_kind':'values'}},
+   {'name':'verify_vec','module':'harness.C04','cls':'VerifyThreshold','quick':{'nk':2,'ns':3,'iter_kind':'vec'},'thorough':{'nk':3,'ns':3,'iter_kind':'vec'}},
+   {'name':'verify_mapvalues','module':'harness.C04','cls':'VerifyThreshold','quick':{'nk':2,'ns':2,'iter_kind':'values'},'thorough':{'nk':2,'ns':3,'iter_kind':'values'}},
    {'name':'signatures_replayed_on_other_content','module':'harness.C04','cls':'ReplayAcrossCalls','quick':{},'thorough':{}},
    {'name':'genuine_signature_of_every_scheme_and_length','module':'harness.C04','cls':'GenuineSignature','quick':{},'thorough':{}},
  ]}
